@@ -217,6 +217,13 @@ func (x *Exec) applyContract(bc *blockCtx, in ssa.Instruction, f *ssa.Function, 
 			vars[fv.Name()] = &Val{Typ: fv.Type().(*types.Pointer).Elem(), T: x.loadLoc(bc.st, loc)}
 		}
 	}
+	if par := f.Parent(); par != nil {
+		for _, prm := range par.Params {
+			if _, ok := vars[prm.Name()]; !ok {
+				vars[prm.Name()] = x.havoc(prm.Type(), "outer_"+prm.Name(), bc.reach)
+			}
+		}
+	}
 	pre := bc.st.clone()
 	ce := &CEnv{x: x, st: pre, old: pre, vars: vars, pkg: fnPkg(f), guard: bc.reach, fc: fc}
 	x.evalLets(ce, fc)
